@@ -124,6 +124,10 @@ func (p *Proof) IsValid(public Public) bool {
 	if p == nil {
 		return false
 	}
+	// every field is needed below: a proof with a missing field is not valid
+	if p.W == nil {
+		return false
+	}
 
 	N := public.N.Big()
 	if big.Jacobi(p.W, N) != -1 {
@@ -225,7 +229,7 @@ func (r *Response) Verify(n, w, y *big.Int) bool {
 }
 
 func (p *Proof) Verify(public Public, hash *hash.Hash, pl *pool.Pool) bool {
-	if p == nil {
+	if !p.IsValid(public) {
 		return false
 	}
 	n := public.N.Big()
